@@ -41,13 +41,61 @@ theorem registry_marker_free :
       a ∉ Gen.C03.extraKexClient ∧ a ∉ Gen.C03.extraKexServer := by
   decide +kernel
 
-/-- **all seven negotiated names agree** (kex, cipher, MAC and compression per direction, including the rule
-    that a cipher with built-in integrity fixes the MAC name) when each side ran `_process_kexinit` on the
-    KEXINIT the other side's `_send_kexinit` built -/
+/-- **all eight negotiated names agree** (key exchange method, server host key algorithm, cipher, MAC and
+    compression per direction, including the rule that a cipher with built-in integrity fixes the MAC name)
+    when each side ran `_process_kexinit` on the KEXINIT the other side's `_send_kexinit` built -/
 theorem negotiated_names_agree {c s : LocalAlgs} {ck sk : Bytes} {n1 n2 : Negotiated} (hm : MarkerFree c s)
+    (hg : ∀ k ∈ s.kex, isGssKex k = false)
     (h1 : negotiate true c (sentKexInit false sk s) = .ok n1)
     (h2 : negotiate false s (sentKexInit true ck c) = .ok n2) : n1 = n2 :=
-  negotiate_agree hm h1 h2
+  negotiate_agree hm hg h1 h2
+
+/-- **the server host key algorithm is the first one on the client's list the server has a key for**, from
+    either role's viewpoint (the client's `_choose_alg('server host key', ..)`, the server's
+    `choose_server_host_key`); without a common one the negotiation fails with KeyExchangeFailed on both sides -/
+theorem host_key_alg_first_client_pref {isClient : Bool} {loc : LocalAlgs} {peer : KexInit} {n : Negotiated}
+    (h : negotiate isClient loc peer = .ok n) (hg : isGssKex n.kex = false) :
+    chooseAlg isClient loc.hostKey peer.hostKeyAlgs = some n.hostKey := by
+  unfold negotiate at h
+  split at h
+  · simp at h
+  · rename_i kex _
+    split at h
+    · simp at h
+    · rename_i hk hhk
+      have hn : n.kex = kex ∧ n.hostKey = hk := by
+        unfold negotiateRest at h
+        simp only [bind, Except.bind, pure, Except.pure] at h
+        repeat' (first | split at h | dsimp only at h)
+        all_goals first
+          | (simp at h; done)
+          | skip
+        all_goals
+          simp only [Except.ok.injEq] at h
+          subst h
+          exact ⟨rfl, rfl⟩
+      rw [hn.1] at hg
+      rw [hn.2]
+      simpa [chooseHostKey, hg, chooseOrErr_ok] using hhk
+
+/-- the signature algorithm that goes with a host key algorithm (`get_signature_alg`), on the regenerated
+    certificate table: plain algorithms name themselves, certificate algorithms their key's algorithm, and the
+    `x509v3-` prefix is dropped -/
+theorem sig_alg_for_example :
+    sigAlgFor (strBytes "rsa-sha2-512") = strBytes "rsa-sha2-512" ∧
+    sigAlgFor (strBytes "rsa-sha2-512-cert-v01@openssh.com") = strBytes "rsa-sha2-512" ∧
+    sigAlgFor (strBytes "ssh-ed25519-cert-v01@openssh.com") = strBytes "ssh-ed25519" ∧
+    sigAlgFor (strBytes "x509v3-rsa2048-sha256") = strBytes "rsa2048-sha256" := by
+  decide +kernel
+
+/-- the code under test does what the model says about the host key algorithm (facts read from the AST of
+    `choose_server_host_key`, `_process_kexinit`, `validate_server_host_key`, `_validate_host_key` on every
+    run): the server selects the signature algorithm on a copy of the key pair private to the connection, the
+    client chooses the host key algorithm and refuses a host key or a signature that does not match it -/
+theorem host_key_alg_bound_in_code :
+    Gen.C03.sigAlgPerConnection = true ∧ Gen.C03.clientChoosesHostKeyAlg = true ∧
+    Gen.C03.clientChecksKeyAlg = true ∧ Gen.C03.clientChecksSigAlg = true := by
+  decide
 
 /-- the MAC-follows-cipher rule (connection.py:2451-2461) for the client→server direction -/
 theorem mac_follows_cipher {isClient : Bool} {loc : LocalAlgs} {peer : KexInit} {n : Negotiated}
@@ -150,7 +198,8 @@ theorem accepted_has_record (cr : Crypto) (ccfg scfg : Cfg) (evs : List Ev)
     bytes, inject, reorder, drop), under an injective hash and an ideal signature by a key the editor does not
     hold: if the client accepted (verified the signature, sent NEWKEYS) then the server signed a record whose
     every hashed field — `V_C, V_S, I_C, I_S, K_S`, group-exchange request, `p`, `g`, `e`/`Q_C`, `f`/`Q_S`,
-    RSA transient key and ciphertext, `K` — equals the client's, and both negotiated the same seven names. -/
+    RSA transient key and ciphertext, `K` — equals the client's, and both negotiated the same eight names
+    (key exchange method, server host key algorithm, cipher, MAC and compression per direction). -/
 theorem no_downgrade (cr : Crypto) (ccfg scfg : Cfg) (hwf : CfgWF ccfg scfg) (hinj : HashInjective cr)
     (evs : List Ev) (a : Accept)
     (hsig : IdealSignature cr ((World.run cr ccfg scfg evs).s.signed cr))
@@ -167,6 +216,54 @@ theorem no_downgrade (cr : Crypto) (ccfg scfg : Cfg) (hwf : CfgWF ccfg scfg) (hi
   rw [this] at hrhi
   obtain ⟨h1, h2⟩ := accepted_eq_signed hwf ha hrOK hhi hrhi
   exact ⟨r, hr, h1.symm, h2.symm⟩
+
+/-- **The host key and the signature are those of the negotiated host key algorithm.**  Under the hypotheses
+    of `no_downgrade`, a client that accepted (a) holds a host key that can be used with the host key algorithm
+    it negotiated, (b) verified a signature that names the signature algorithm of that host key algorithm, and
+    (c) the server negotiated the same host key algorithm on that connection and its signature names the same
+    signature algorithm — nobody, on-path or on another connection of the same listener, moved the exchange to
+    another host key type or to a weaker signature hash. -/
+theorem host_key_alg_bound (cr : Crypto) (ccfg scfg : Cfg) (hwf : CfgWF ccfg scfg) (hinj : HashInjective cr)
+    (evs : List Ev) (a : Accept)
+    (hsig : IdealSignature cr ((World.run cr ccfg scfg evs).s.signed cr))
+    (hacc : (World.run cr ccfg scfg evs).c.acc = some a) :
+    a.neg.hostKey ∈ cr.keyAlgs a.view.hostKey ∧ sigAlgName a.sig = some (sigAlgFor a.neg.hostKey) ∧
+    chooseAlg true ccfg.algs.hostKey (sentKexInit false scfg.cookie scfg.algs).hostKeyAlgs = some a.neg.hostKey ∧
+    ∃ r ∈ (World.run cr ccfg scfg evs).s.signedRecs, r.1.neg.hostKey = a.neg.hostKey ∧
+      sigAlgName r.1.sig = some (sigAlgFor a.neg.hostKey) := by
+  obtain ⟨r, hr, hview, hneg⟩ := no_downgrade cr ccfg scfg hwf hinj evs a hsig hacc
+  obtain ⟨hc, hs⟩ := World.run_inv cr ccfg scfg evs
+  have ha := hc.accOK a hacc
+  obtain ⟨hrOK, _⟩ := hs.recOK r hr
+  have his := hrOK.is
+  rw [hview] at his
+  obtain ⟨info, hnegA, _, _⟩ := ha.neg
+  have hn := (negOK_of_sent (isClient := true) (other := scfg) hwf.sWF his hnegA).1
+  have hkex : a.neg.kex ∈ scfg.algs.kex := by
+    obtain ⟨infoB, hnegB, _, _⟩ := hrOK.neg
+    obtain ⟨_, peer, _, _, hnb, _⟩ := hnegB
+    rw [hneg] at hnb
+    unfold negotiate at hnb
+    split at hnb
+    · simp at hnb
+    · rename_i kex hk
+      have : a.neg.kex = kex := by
+        split at hnb
+        · simp at hnb
+        · unfold negotiateRest at hnb
+          simp only [bind, Except.bind, pure, Except.pure] at hnb
+          repeat' (first | split at hnb | dsimp only at hnb)
+          all_goals first
+            | (simp at hnb; done)
+            | skip
+          all_goals
+            simp only [Except.ok.injEq] at hnb
+            rw [← hnb]
+      rw [this]
+      simp only [chooseAlg, Bool.false_eq_true, if_false] at hk
+      exact (firstIn_some hk).1
+  refine ⟨ha.keyAlg, ha.sigAlg, host_key_alg_first_client_pref hn (hwf.noGss _ hkex), r, hr, by rw [hneg], ?_⟩
+  rw [← hneg]; exact hrOK.sigAlg
 
 /-- what `no_downgrade` means field by field: every value the client hashed as *received* is the value the
     server *sent* (its own version string, its own KEXINIT payload, its host key blob), and every value the
@@ -262,14 +359,18 @@ def toyAlgs : LocalAlgs :=
 def toyClient : Cfg := { version := strBytes "SSH-2.0-C", cookie := List.replicate 16 1, algs := toyAlgs }
 def toyServer : Cfg := { version := strBytes "SSH-2.0-S", cookie := List.replicate 16 2, algs := toyAlgs }
 
+/-- the signature blob of the toy scheme: `String('ssh-ed25519')` and a one-byte tag -/
+def toySig : Bytes := ((encString? (strBytes "ssh-ed25519")).getD []) ++ [9]
+
 /-- identity "hash" (injective), a signature scheme whose verification accepts exactly the pair
     (`h0`, tag) under the one host key, and constant key-agreement results -/
 def toyCrypto (h0 : Bytes) : Crypto :=
   { hashOf := fun _ x => x
-    verify := fun pk m σ => pk == [7, 7] && m == h0 && σ == [9]
+    verify := fun pk m σ => pk == [7, 7] && m == h0 && σ == toySig
     trusted := fun pk => pk == [7, 7]
+    keyAlgs := fun _ => [strBytes "ssh-ed25519"]
     hostKeyOf := fun _ => [7, 7]
-    sign := fun _ _ => [9]
+    signRaw := fun _ _ => [9]
     dhClientPub := fun _ _ => none
     dhClientShared := fun _ _ _ => none
     dhServer := fun _ _ _ => none
@@ -277,7 +378,7 @@ def toyCrypto (h0 : Bytes) : Crypto :=
     ecClientShared := fun _ qs => some (0 :: 0 :: 0 :: 1 :: qs)
     ecServer := fun _ _ => some ([4, 5], [0, 0, 0, 1, 4, 5])
     rsaTransKey := []
-    rsaEncrypt := fun _ => none
+    rsaEncrypt := fun _ => .error .proto
     rsaDecrypt := fun _ => .error .kexFailed }
 
 /-- the honest relay as a list of editor moves: deliver everything written, in order -/
@@ -309,7 +410,7 @@ theorem toy_cfg_wf : CfgWF toyClient toyServer :=
    ⟨by decide +kernel, by decide +kernel, by decide +kernel, by decide +kernel, by decide +kernel,
     by decide +kernel, by decide +kernel, by decide +kernel, by decide +kernel, by decide +kernel,
     by decide +kernel⟩,
-   ⟨by decide +kernel, by decide +kernel⟩⟩
+   ⟨by decide +kernel, by decide +kernel⟩, by decide +kernel⟩
 
 /-- **the hypotheses of `no_downgrade` are satisfiable and its conclusion is not vacuous**: with the toy
     primitives (identity hash; a verification that accepts only what the server signed) the unedited run ends
@@ -335,6 +436,79 @@ theorem edited_kexinit_rejected_example :
     (World.run (toyCrypto toyH0) toyClient toyServer evs).c.acc = none := by
   decide +kernel
 
+
+/-! ## 6. several connections of one listener; the behaviour before the repairs -/
+
+/-- **Another connection of the same listener cannot change the algorithm a connection signs with.**  For
+    every interleaving of deliveries to two connections accepted by one listener (the second one may be any
+    stranger: it needs no credentials to send a KEXINIT), every record either connection signed carries a
+    signature that names the signature algorithm of the host key algorithm negotiated *on that connection*. -/
+theorem listener_signs_with_own_alg (cr : Crypto) (cfg : Cfg) (evs : List LEv) :
+    (∀ r ∈ (Listener.run cr cfg evs).a.signedRecs, sigAlgName r.1.sig = some (sigAlgFor r.1.neg.hostKey)) ∧
+    (∀ r ∈ (Listener.run cr cfg evs).b.signedRecs, sigAlgName r.1.sig = some (sigAlgFor r.1.neg.hostKey)) := by
+  obtain ⟨ha, hb⟩ := Listener.run_inv cr cfg evs
+  exact ⟨fun r hr => (ha.recOK r hr).1.sigAlg, fun r hr => (hb.recOK r hr).1.sigAlg⟩
+
+def rsaAlgs (hostKey : List String) : LocalAlgs := { toyAlgs with hostKey := hostKey.map strBytes }
+/-- a listener with one RSA host key (registered under its three plain signature algorithms) -/
+def rsaServer : Cfg :=
+  { version := strBytes "SSH-2.0-S", cookie := List.replicate 16 2,
+    algs := rsaAlgs ["rsa-sha2-256", "rsa-sha2-512", "ssh-rsa"] }
+/-- the victim offers only `rsa-sha2-512`, the stranger only `ssh-rsa` -/
+def victimKexInit : Bytes :=
+  (ownKexInit true { version := strBytes "SSH-2.0-A", cookie := List.replicate 16 1, algs := rsaAlgs ["rsa-sha2-512"] }).getD []
+def strangerKexInit : Bytes :=
+  (ownKexInit true { version := strBytes "SSH-2.0-B", cookie := List.replicate 16 3, algs := rsaAlgs ["ssh-rsa"] }).getD []
+/-- the stranger's KEXINIT reaches the listener between the victim's KEXINIT and the victim's ECDH INIT -/
+def raceEvs : List LEv :=
+  [.toA (strBytes "SSH-2.0-A"), .toA victimKexInit, .toB (strBytes "SSH-2.0-B"), .toB strangerKexInit,
+   .toA (mkMsg Gen.C03.MSG_KEX_ECDH_INIT ((encString? [1, 2, 3]).getD []))]
+
+/-- (host key algorithm negotiated, algorithm the signature names) of every record a connection signed -/
+def signedAlgs (st : SState) : List (Name × Option Name) :=
+  st.signedRecs.map fun r => (r.1.neg.hostKey, sigAlgName r.1.sig)
+
+/-- **witness of the defect before the repair** (signature algorithm kept in the key pair object that all
+    connections of a listener share): in the race above the victim negotiated `rsa-sha2-512` and its exchange
+    hash was signed with `ssh-rsa`; the repaired server signs it with `rsa-sha2-512` -/
+theorem listener_prefix_downgrade :
+    signedAlgs (ListenerPreFix.run (toyCrypto []) rsaServer (strBytes "ssh-rsa") raceEvs).a =
+      [(strBytes "rsa-sha2-512", some (strBytes "ssh-rsa"))] ∧
+    signedAlgs (Listener.run (toyCrypto []) rsaServer raceEvs).a =
+      [(strBytes "rsa-sha2-512", some (strBytes "rsa-sha2-512"))] := by
+  decide +kernel
+
+/-- a client state after a negotiation that chose `ssh-ed25519` -/
+def negotiatedEd : CState :=
+  { phase := .reply, vs := strBytes "SSH-2.0-S", is := [20],
+    negInfo := some (⟨strBytes "curve25519-sha256", strBytes "ssh-ed25519", [], [], [], [], [], []⟩, ⟨.ecdh, 0, 0⟩) }
+/-- a server that holds an RSA key the client trusts as well, and signs with it -/
+def lyingCrypto : Crypto :=
+  { toyCrypto [] with verify := fun _ _ _ => true, trusted := fun _ => true,
+                      keyAlgs := fun pk => if pk == [8, 8] then [strBytes "rsa-sha2-256", strBytes "rsa-sha2-512", strBytes "ssh-rsa"]
+                                           else [strBytes "ssh-ed25519"] }
+def sigNamed (alg : String) : Bytes := ((encString? (strBytes alg)).getD []) ++ [9]
+
+/-- **witness of the defect before the repair** (client never compared the host key or the signature with the
+    negotiation): having negotiated `ssh-ed25519`, the old client accepted an RSA host key with an `ssh-rsa`
+    signature, and an Ed25519 key whose signature names another algorithm; the repaired client refuses the
+    first with a host key error and the second with KeyExchangeFailed, and still accepts the honest reply -/
+theorem client_prefix_ignores_negotiated_host_key_alg :
+    let shared : Except Err (KexBody × Bytes) := .ok (.ecdh [1] [2], [0, 0, 0, 1, 5])
+    (clientVerifyPreFix lyingCrypto toyClient negotiatedEd [8, 8] shared (sigNamed "ssh-rsa")).1.phase = .accepted ∧
+    (clientVerify lyingCrypto toyClient negotiatedEd [8, 8] shared (sigNamed "ssh-rsa")).1.phase = .failed .hostKey ∧
+    (clientVerifyPreFix lyingCrypto toyClient negotiatedEd [7, 7] shared (sigNamed "ssh-rsa")).1.phase = .accepted ∧
+    (clientVerify lyingCrypto toyClient negotiatedEd [7, 7] shared (sigNamed "ssh-rsa")).1.phase = .failed .kexFailed ∧
+    (clientVerify lyingCrypto toyClient negotiatedEd [7, 7] shared (sigNamed "ssh-ed25519")).1.phase = .accepted := by
+  decide +kernel
+
+/-- before the repair the client chose no host key algorithm at all: a server KEXINIT whose host key list has
+    nothing in common with the client's was accepted by the negotiation, which now fails -/
+theorem client_prefix_chooses_no_host_key_alg :
+    let peer := sentKexInit false (List.replicate 16 2) (rsaAlgs ["ssh-dss"])
+    (chooseHostKeyPreFix true toyAlgs peer (strBytes "curve25519-sha256")).toOption = some [] ∧
+    (chooseHostKey true toyAlgs peer (strBytes "curve25519-sha256")).toOption = none := by
+  decide +kernel
 
 /-- the client's order wins: client prefers `b` over `c`, the server lists `c` first -/
 theorem choose_example :
